@@ -406,6 +406,73 @@ def leg_generated(ns, res, spec):
     res.sample({'leg': 'generated', 'cases': len(cases), 'example': cases[0]['query_text'], 'solo_example': {k: solo[0][k] for k in ('rows', 'error')}})
 
 
+MODULE_HISTORY_SCRIPT = r"""
+import io, json, sys, sqlite3
+sys.path.insert(0, sys.argv[2])
+import rbql
+from rbql import rbql_csv, rbql_engine
+mode = sys.argv[1]
+def probe():
+    T = [['y', float('nan'), 'q'], ['z', float('inf'), None], ['w', 1.5, 'x'], ['v', -0.0, 7], ['u', 10 ** 30, True]]
+    res = []
+    for q in ('select a1, a2, a3', 'select a1, float(a2) * 2, a3', 'select a1, a2 where a3 is not None', 'select a1, [a2, a3]', 'update a1 = a2', 'select a1, max(a2, 0), str(a2)'):
+        out = io.StringIO()
+        out.close = lambda: None
+        warnings = []
+        try:
+            rbql.query(q, rbql_engine.TableIterator([list(r) for r in T]), rbql_csv.CSVWriter(out, False, None, ',', 'quoted'), warnings)
+            res.append([q, out.getvalue(), sorted(warnings), None])
+        except Exception as e:
+            res.append([q, out.getvalue(), sorted(warnings), type(e).__name__ + ': ' + str(e)[:100]])
+    return res
+if mode == 'pandas-first':
+    import pandas as pd
+    rbql.query_pandas_dataframe('select a1, a2 where a2 > 0', pd.DataFrame([[1, 2.5], [3, float('nan')]], columns=['p', 'q']))
+elif mode == 'sqlite-first':
+    from rbql import rbql_sqlite
+    conn = sqlite3.connect(':memory:')
+    conn.execute('create table t (a integer, b real)')
+    conn.execute('insert into t values (1, 2.5)')
+    rbql.query('select a1, a2', rbql_sqlite.SqliteRecordIterator(conn, 't'), rbql_engine.TableWriter([]), [])
+elif mode == 'imports-first':
+    import pandas, numpy, decimal, fractions, datetime
+elif mode == 'failing-first':
+    for q in ('select a1 +', 'select a["nope"]', 'select int(a1)'):
+        try:
+            rbql.query_table(q, [['x']], [], [])
+        except Exception:
+            pass
+print(json.dumps(probe()))
+"""
+
+
+def leg_module_history(ns, res, spec):
+    """What a query writes must not depend on which optional modules (pandas, numpy, sqlite adapters) EARLIER queries happened to load into the interpreter:
+    the same typed table (NaN, infinities, None, -0.0, big integers, booleans) through the CSV writer alone in a fresh interpreter, and in fresh
+    interpreters that first ran a dataframe query / a sqlite query / bare imports / failing queries."""
+    outs = {}
+    e = dict(os.environ, PYTHONDONTWRITEBYTECODE='1', PYTHONHASHSEED='0', PYTHONWARNINGS='ignore')
+    e.pop('PYTHONPATH', None)
+    procs = {m: subprocess.Popen([sys.executable, '-W', 'ignore', '-c', MODULE_HISTORY_SCRIPT, m, env.PY_PKG_DIR], stdout=subprocess.PIPE, stderr=subprocess.PIPE, env=e, cwd=env.VERIF_DIR)
+             for m in ('alone', 'pandas-first', 'sqlite-first', 'imports-first', 'failing-first')}
+    for m, p in procs.items():
+        so, se = p.communicate(timeout=600)
+        if p.returncode != 0:
+            raise env.InfraError('module-history probe %s failed: %s' % (m, se.decode()[-400:]))
+        outs[m] = json.loads(so.decode().strip().splitlines()[-1])
+    for m in outs:
+        if m == 'alone':
+            continue
+        for solo, got in zip(outs['alone'], outs[m]):
+            res.evaluations += 1
+            res.count('module_history_comparisons')
+            res.nontrivial('module-history', m, solo[0])
+            if solo != got:
+                res.violation('py:result-depends-on-modules-loaded-by-earlier-queries:' + m, '[py] %s through the CSV writer in an interpreter that ran %s before -> %r warnings %r error %r ; alone in a fresh interpreter -> %r warnings %r error %r' % (
+                    solo[0], m, got[1], got[2], got[3], solo[1], solo[2], solo[3]), {'leg': 'module-history', 'mode': m, 'query_text': solo[0]})
+    res.sample({'leg': 'module-history', 'modes': sorted(outs), 'queries': [x[0] for x in outs['alone']]})
+
+
 def leg_js_history(ns, res, spec):
     """The JS port, sequentially (its module-global context rules out concurrent queries, which is documented and not claimed): the result of a
     query alone in a fresh node process vs after shuffled histories of other - also failing - queries in one node process."""
@@ -1019,6 +1086,7 @@ def plan(tier, seed):
         specs += [{'kind': 'js-csv-history', 'i': i, 'n': 30} for i in range(2)]
         specs.append({'kind': 'fs-registry', 'max_schedules': 300})
         specs.append({'kind': 'sqlite-history'})
+        specs.append({'kind': 'module-history'})
         specs += [{'kind': 'pandas-history', 'i': i, 'n': 40} for i in range(2)]
         specs += [{'kind': 'frontend-threads', 'n': 25} for i in range(2)]
         specs += [{'kind': 'csv-history', 'i': i, 'n': 60} for i in range(2)]
@@ -1043,6 +1111,7 @@ def plan(tier, seed):
         specs += [{'kind': 'js-csv-history', 'i': i, 'n': 120} for i in range(4)]
         specs.append({'kind': 'fs-registry', 'max_schedules': 5000})
         specs.append({'kind': 'sqlite-history'})
+        specs.append({'kind': 'module-history'})
         specs += [{'kind': 'pandas-history', 'i': i, 'n': 300} for i in range(6)]
         specs += [{'kind': 'frontend-threads', 'n': 150} for i in range(8)]
         specs += [{'kind': 'csv-history', 'i': i, 'n': 600} for i in range(6)]
@@ -1222,7 +1291,7 @@ def leg_fs_registry_interleave(ns, res, spec):
 
 def run_shard(spec, res):
     ns = env.import_rbql()
-    {'fs-registry': leg_fs_registry_interleave, 'js-csv-history': leg_js_csv_history, 'history': leg_history, 'interleave': leg_interleave, 'preempt': leg_preempt, 'generated': leg_generated, 'js-history': leg_js_history, 'sqlite-history': leg_sqlite_history, 'pandas-history': leg_pandas_history, 'frontend-threads': leg_frontend_threads, 'csv-history': leg_csv_history, 'shared-table-history': leg_shared_table_history}[spec['kind']](ns, res, spec)
+    {'module-history': leg_module_history, 'fs-registry': leg_fs_registry_interleave, 'js-csv-history': leg_js_csv_history, 'history': leg_history, 'interleave': leg_interleave, 'preempt': leg_preempt, 'generated': leg_generated, 'js-history': leg_js_history, 'sqlite-history': leg_sqlite_history, 'pandas-history': leg_pandas_history, 'frontend-threads': leg_frontend_threads, 'csv-history': leg_csv_history, 'shared-table-history': leg_shared_table_history}[spec['kind']](ns, res, spec)
 
 
 def summarize(tier, seed, m):
@@ -1230,7 +1299,7 @@ def summarize(tier, seed, m):
         'rule': '%d scenarios (plain select, like, UNNEST, ORDER BY, DISTINCT COUNT, GROUP BY with all nine aggregates, JOIN, UPDATE with NU, TOP, syntax error, parsing error, runtime error at record 2, aggregate misuse, double UNNEST, and two pairs of identical query texts over differently ordered headers); solo results from one fresh interpreter per scenario; history: every sequence of length <= 2 plus random sequences of length 3..6 in one process; interleaving: every unordered pair of scenarios (incl. a scenario with itself) in two real threads under the cooperative scheduler, ALL interleavings of the get_record / write / finish steps enumerated by stateless DFS (%s); preemption stress with sys.monitoring LINE yield injection; generated queries (C01-C05 generators, failing variants, and header twins: the same query text over the same data with the columns in another order) whose solo results come from forked children of a query-free interpreter, together with a state-reading query (its result is interpreter-wide state: int/str digit limit, recursion limit, switch interval, decimal precision, locale, encodings, buffer size, TZ, csv field limit) three queries whose user init code keeps module-level state (a counter, a memo; each twice), and nine stress queries (5000-digit integers written before a failure, 200000-character cells, 3000-column records, float overflow), then run in three shuffled orders through one interpreter (probe sink and CSV writer sink) and pairwise in two threads under seeded random schedules; the JS port sequentially: generated language-neutral queries alone in a fresh node process each vs three shuffled histories (with failing queries interspersed) in one node process; the sqlite front-end with one connection shared by every ordered pair of 15 queries (utf-8 / latin-1 output, 7 of them failing) vs a fresh connection each, and the caller\'s connection settings before / after; the pandas front-end with ONE DataFrame object (and one join frame) serving histories of 3-6 queries while its owner re-labels, permutes, renames, adds, drops and overwrites columns in place between them, each result compared with the same query over a newly built equal frame in a forked child that ran no query; query_csv histories of 3-8 calls where the meaning of a query text depends on its surroundings (the same relative join table name next to inputs in three directories, a relative input path under a changing working directory, a ~/.rbql_table_names entry re-pointed between calls, dialect / encoding / header flag changing from call to call, failing calls in between), against forked-child baselines; histories of 3-7 queries over ONE list table object with typed cells (numbers, None, strings a CSV sink must quote) and one join table through list and CSV sinks, against fresh copies in forked children; the front-ends side by side: 8 threads running query_csv (five dialects / encodings, JOIN files, failing queries), query_pandas_dataframe and query_sqlite_to_csv under statement-level yield injection in the engine, CSV reader / writer, splitter and adapters, each result compared with a forked child that ran only that task. distinct_nontrivial = distinct step traces realised + distinct history sequences.' % (
             len(SCENARIOS), '2-record tables' if tier == 'quick' else '2- and 3-record tables for all pairs (3-record pairs capped at 20000 schedules), 4-record tables for 6 selected pairs'),
         'exhaustive': m['counters'].get('pairs_truncated', 0) == 0,
-        'required': ['js_csv_history_runs', 'fs_registry_schedules', 'fs_registry_history_runs', 'shared_registry_history_runs', 'shared_table_history_runs', 'shared_table_solo_results_from_forked_children', 'shared_table_history_sink:csv-quoted', 'shared_table_history_sink:list', 'csv_history_runs', 'csv_history_solo_results_from_forked_children', 'csv_history_solo_failing', 'environment_reader_and_stressor_cases', 'frontend_thread_runs', 'frontend_solo_results_from_forked_children', 'frontend_solo_failing', 'frontend_injected_yields', 'pandas_history_runs', 'pandas_history_solo_results_from_forked_children', 'pandas_history_solo_failing', 'pandas_history_op:relabel', 'pandas_history_op:add', 'sqlite_history_runs', 'sqlite_history_solo_failing', 'js_solo_results_from_fresh_node_processes', 'js_history_runs', 'generated_solo_results', 'generated_header_twins', 'generated_history_runs', 'generated_interleaved_schedules', 'generated_interleaved_handoffs', 'schedules', 'pairs_enumerated_completely', 'handoffs', 'history_runs', 'preemption_runs', 'line_events_in_main_loop', 'injected_yields'],
+        'required': ['module_history_comparisons', 'js_csv_history_runs', 'fs_registry_schedules', 'fs_registry_history_runs', 'shared_registry_history_runs', 'shared_table_history_runs', 'shared_table_solo_results_from_forked_children', 'shared_table_history_sink:csv-quoted', 'shared_table_history_sink:list', 'csv_history_runs', 'csv_history_solo_results_from_forked_children', 'csv_history_solo_failing', 'environment_reader_and_stressor_cases', 'frontend_thread_runs', 'frontend_solo_results_from_forked_children', 'frontend_solo_failing', 'frontend_injected_yields', 'pandas_history_runs', 'pandas_history_solo_results_from_forked_children', 'pandas_history_solo_failing', 'pandas_history_op:relabel', 'pandas_history_op:add', 'sqlite_history_runs', 'sqlite_history_solo_failing', 'js_solo_results_from_fresh_node_processes', 'js_history_runs', 'generated_solo_results', 'generated_header_twins', 'generated_history_runs', 'generated_interleaved_schedules', 'generated_interleaved_handoffs', 'schedules', 'pairs_enumerated_completely', 'handoffs', 'history_runs', 'preemption_runs', 'line_events_in_main_loop', 'injected_yields'],
         'assumptions': ['exhaustive at the granularity of iterator / writer calls (what the statement names); statement-level preemption is sampled; bytecode-level is not explored', 'a change of module-level state alone is not a refutation (advisory notes only)'],
     }
 
